@@ -3435,6 +3435,11 @@ def commit_tree_changes(
         assert isinstance(sha_obj, Tree)
         tree_obj = sha_obj
     nested_changes: dict[bytes, list[tuple[bytes, int | None, ObjectID | None]]] = {}
+    # Entries set directly in this tree are applied after the nested changes,
+    # deletions before them, so that a change list may replace a directory by
+    # a file (delete a/b/c, add a/b) or a file by a directory (delete a, add
+    # a/b) in either order.
+    direct_sets: list[tuple[bytes, int, ObjectID]] = []
     for path, new_mode, new_sha in changes:
         try:
             (dirname, subpath) = path.split(b"/", 1)
@@ -3443,12 +3448,15 @@ def commit_tree_changes(
                 del tree_obj[path]
             else:
                 assert new_mode is not None
-                tree_obj[path] = (new_mode, new_sha)
+                direct_sets.append((path, new_mode, new_sha))
         else:
             nested_changes.setdefault(dirname, []).append((subpath, new_mode, new_sha))
     for name, subchanges in nested_changes.items():
         try:
-            orig_subtree_id: ObjectID | Tree = tree_obj[name][1]
+            orig_mode, orig_subtree_id = tree_obj[name]
+            if not stat.S_ISDIR(orig_mode):
+                # A file is being replaced by a directory
+                orig_subtree_id = Tree()
         except KeyError:
             # For new directories, pass an empty Tree object
             orig_subtree_id = Tree()
@@ -3456,9 +3464,12 @@ def commit_tree_changes(
         subtree = object_store[subtree_id]
         assert isinstance(subtree, Tree)
         if len(subtree) == 0:
-            del tree_obj[name]
+            if name in tree_obj:
+                del tree_obj[name]
         else:
             tree_obj[name] = (stat.S_IFDIR, subtree.id)
+    for path, new_mode, new_sha in direct_sets:
+        tree_obj[path] = (new_mode, new_sha)
     object_store.add_object(tree_obj)
     return tree_obj.id
 
